@@ -48,8 +48,8 @@ def build_table(header, data_rows, bad_at, bad_kind, multiline_header=False, all
 
 def cid_file(config):
     decls = readermachine.decls_for(config)
-    rows = harness.cid_rows(config["preset"], decls, config.get("checks", ()), config["header"], line_delimiter="lf" if config["preset"] in ("delimited", "fixed") else None, extra=list(config.get("extra", ())))
-    path = os.path.join(readermachine.tmpdir(), "cid_%s_%d%s.csv" % (config["preset"], config["header"], ("_allowed" if config.get("extra") else "") + ("_checks" if config.get("checks") else "")))
+    rows = harness.cid_rows(config["preset"], decls, config.get("checks", ()), config["header"], line_delimiter=config.get("line_delimiter", "lf") if config["preset"] in ("delimited", "fixed") else None, extra=list(config.get("extra", ())))
+    path = os.path.join(readermachine.tmpdir(), "cid_%s_%d%s.csv" % (config["preset"], config["header"], ("_allowed" if config.get("extra") else "") + ("_checks" if config.get("checks") else "") + ("_" + config["line_delimiter"] if config.get("line_delimiter") else "")))
     if not os.path.exists(path):
         with open(path, "w", newline="", encoding="utf-8") as cid_stream:
             csv.writer(cid_stream).writerows(rows)
@@ -72,6 +72,8 @@ def judge(case, part):
         config["extra"] = ALLOWED
     if case.get("checks"):
         config["checks"] = CHECKS
+    if case.get("line_delimiter"):
+        config["line_delimiter"] = case["line_delimiter"]  # fixed data without line delimiter: records follow each other directly
     rejects = bad_at is not None and bad_at > header and (limit is None or bad_at <= limit)
     if bad_kind == "dup" and bad_at - header < 2:
         rejects = False  # no earlier data row holds the key
@@ -250,6 +252,8 @@ def enumerate_cases(preset, header, max_rows=6):
     # with an allowed-characters declaration: header rows and rows behind the limit may hold any character
     cases += [dict(case, allowed=True, bad_kind="char" if case["bad_kind"] == "cell2" else case["bad_kind"]) for case in cases if case["rows"] <= 4 and case["bad_kind"] in (None, "cell", "cell2")]
     cases += with_checks
+    if preset == "fixed":
+        cases += [dict(case, line_delimiter="none") for case in cases if case["rows"] <= 4 and case["bad_kind"] in (None, "cell") and not case.get("allowed") and not case.get("short_by")]
     if preset == "delimited" and header:
         cases += [dict(case, multiline_header=True) for case in cases if case["rows"] <= 4 and case["bad_kind"] in (None, "cell", "short") and not case.get("allowed")]
     return cases
